@@ -145,6 +145,9 @@ func (p *parser) BasicParser(urlOrRef string, baseUrl *Url, url *Url, stateOverr
 	}
 
 	var buffer strings.Builder
+	// credentials are collected in builders: appending to url.username / url.password one code
+	// point at a time copies the whole string every time
+	var usernameBuffer, passwordBuffer strings.Builder
 	atFlag := false
 	bracketFlag := false
 	passwordTokenSeenFlag := false
@@ -345,6 +348,10 @@ func (p *parser) BasicParser(urlOrRef string, baseUrl *Url, url *Url, stateOverr
 					buffer.WriteString("%40")
 					buffer.WriteString(tmp)
 				}
+				if !atFlag {
+					usernameBuffer.WriteString(url.username)
+					passwordBuffer.WriteString(url.password)
+				}
 				atFlag = true
 				bb := newInputString(buffer.String())
 				c := bb.nextCodePoint()
@@ -356,12 +363,14 @@ func (p *parser) BasicParser(urlOrRef string, baseUrl *Url, url *Url, stateOverr
 					}
 					encodedCodePoints := p.percentEncodeRune(c, UserInfoPercentEncodeSet)
 					if passwordTokenSeenFlag {
-						url.password += encodedCodePoints
+						passwordBuffer.WriteString(encodedCodePoints)
 					} else {
-						url.username += encodedCodePoints
+						usernameBuffer.WriteString(encodedCodePoints)
 					}
 					c = bb.nextCodePoint()
 				}
+				url.username = usernameBuffer.String()
+				url.password = passwordBuffer.String()
 				buffer.Reset()
 			} else if (input.eof || r == '/' || r == '?' || r == '#') || url.isSpecialSchemeAndBackslash(r) {
 				if atFlag && buffer.Len() == 0 {
